@@ -156,3 +156,77 @@ for { }`
 	verifrt.Reach("quiesced")
 	verifrt.Assert(ticks == before, "spawned-goroutine-stops-with-the-evaluation")
 }
+
+// HarnessC06ReusedVMAndCall: cancellation also stops (a) RunCode on a VM that
+// has run before — including a context that is already cancelled when RunCode
+// is called — and (b) vm.Call of a script function.
+func HarnessC06ReusedVMAndCall() {
+	globals := map[string]any{}
+	for name, b := range builtins.Builtins() {
+		globals[name] = b
+	}
+	globals["sleep"] = object.NewBuiltin("sleep", modtime.Sleep)
+	names := make([]string, 0, len(globals))
+	for n := range globals {
+		names = append(names, n)
+	}
+	compile := func(src string) *compiler.Code {
+		prog, err := parser.Parse(context.Background(), src)
+		if err != nil {
+			return nil
+		}
+		code, err := compiler.Compile(prog, compiler.WithGlobalNames(names))
+		if err != nil {
+			return nil
+		}
+		return code
+	}
+	first := compile("func spin() { for { } }\nfunc nap() { sleep(5)\n return 7 }\n1")
+	loop := compile("for { }")
+	verifrt.Assert(first != nil && loop != nil, "setup-compiles")
+	if first == nil || loop == nil {
+		return
+	}
+	machine := New(first, WithGlobals(globals), WithConcurrency())
+	verifrt.Assert(machine.Run(context.Background()) == nil, "first-run-succeeds")
+	ctx, cancel := context.WithCancel(context.Background())
+	defer cancel()
+	verifrt.SchedBounds(2, 8)
+	k := verifrt.Choose(8)
+	if k == 0 {
+		cancel() // already cancelled when the call is made
+	} else {
+		verifrt.AtYield(k, cancel)
+	}
+	var err error
+	switch verifrt.Choose(3) {
+	case 0:
+		verifrt.RunWithDeadline("runcode-on-a-used-vm:returns-promptly", 600000, 3*time.Second, func() {
+			err = machine.RunCode(ctx, loop)
+		})
+		verifrt.Reach("runcode")
+		verifrt.Assert(err != nil, "runcode-on-a-used-vm:cancelled-call-does-not-report-success")
+	case 1:
+		fnObj, gerr := machine.Get("spin")
+		fn, isFn := fnObj.(*object.Function)
+		if gerr != nil || !isFn {
+			return
+		}
+		verifrt.RunWithDeadline("call-of-a-spinning-function:returns-promptly", 600000, 3*time.Second, func() {
+			_, err = machine.Call(ctx, fn, nil)
+		})
+		verifrt.Reach("call-spin")
+		verifrt.Assert(err != nil, "call-of-a-spinning-function:cancelled-call-does-not-report-success")
+	case 2:
+		fnObj, gerr := machine.Get("nap")
+		fn, isFn := fnObj.(*object.Function)
+		if gerr != nil || !isFn {
+			return
+		}
+		verifrt.RunWithDeadline("call-of-a-sleeping-function:returns-promptly", 600000, 3*time.Second, func() {
+			_, err = machine.Call(ctx, fn, nil)
+		})
+		verifrt.Reach("call-nap")
+		verifrt.Assert(err != nil, "call-of-a-sleeping-function:cancelled-call-does-not-report-success")
+	}
+}
